@@ -45,17 +45,20 @@ store_harness!(c17_index_remove_mirror, {
 //@ tier: quick
 //@ timeout: 2400
 //@ mem: 16
-//@ covers: none
+//@ covers: any
 //@ unwindset: put_bytes=80; heed::bytes_=260; heed::Table=6; memcmp.0=70; repeat::Repeat=190; Repeat.*try_fold=190; mmap_append=200; enc_tags=6
 //@ cbmc: --max-field-sensitivity-array-size 1100
 //@ encodes: EventStore::store_event, Lmdb::index, Lmdb::deindex, Lmdb::deindex_id, Lmdb::stats (through Store::stats)
-//@ bounds: one event (kind 7, created_at arbitrary in 4096..=4351: one arbitrary byte) with the tags [p v(2 arbitrary bytes)] [q] [ ] indexed with Lmdb::index and removed with Store::remove_event: counts 1/1/1/1 and 1/1/1 for the tag indexes after indexing (value-less and empty tags are not indexed), all zero after removal
+//@ bounds: one event (kind 7, created_at arbitrary in 4096..=4351: one arbitrary byte) with the tags [L v(2 arbitrary bytes)] [q] [ ] - L an ARBITRARY one-byte tag name (either case, digits, any byte) - indexed with Lmdb::index and removed with Store::remove_event: counts 1/1/1/1 and 1/1/1 for the tag indexes after indexing (value-less and empty tags are not indexed), all zero after removal
 store_harness!(c17_index_deindex_mirror_lmdb, {
     let store = verif_store();
     let lo: u8 = kani::any();
     let t: u64 = 0x1000 + lo as u64;
     let v: [u8; 2] = kani::any();
-    let pool = [b'p', v[0], v[1], b'q'];
+    // the tag name is ANY byte (lower case, upper case, digit, anything): whatever index() decides to
+    // enter for it, deindex() has to remove
+    let letter: u8 = kani::any();
+    let pool = [letter, v[0], v[1], b'q'];
     let mut b = [0u8; 200];
     let n = enc_event_img(7, t, &ID_C, &PK_2, &SIG_0, &[&[1, 2], &[1], &[]], &pool, b"", &mut b);
     let _ = seed_stored(&store, as_event(&b[..n]));
@@ -63,6 +66,7 @@ store_harness!(c17_index_deindex_mirror_lmdb, {
     let ix = &s.index_stats;
     assert!(ix.i_index_entries == 1 && ix.ci_index_entries == 1 && ix.ac_index_entries == 1 && ix.akc_index_entries == 1);
     assert!(ix.tc_index_entries == 1 && ix.atc_index_entries == 1 && ix.ktc_index_entries == 1);
+    kani::cover!(letter == b'P');
     core::mem::forget(s);
     ok!(store.remove_event(Id::from_bytes(ID_C)));
     let s2 = ok!(store.stats());
